@@ -2,3 +2,4 @@
 import TjdLemmas.C14Lemmas
 import TjdLemmas.C07Lemmas
 import TjdLemmas.AutojacLemmas
+import TjdLemmas.MtlLemmas
